@@ -712,21 +712,56 @@ def gen_index(src):
     return '\n'.join(out)
 
 
+def _generic_getattr(a, k):
+    if isinstance(a[0], Obj) and isinstance(a[1], str) and len(a) == 3:
+        return a[0].attrs.get(a[1], a[2])
+    raise Unsupported('getattr')
+
+
 def gen_joins_rule(src):
     fn = src.method(MAIN, 'SQLObject', '_getJoinsToCreate')
     rows = []
     for inter in (False, True):
         for create in (False, True):
             for rel, (a, b) in [('Lt', ('A', 'B')), ('Eq', ('A', 'A')), ('Gt', ('B', 'A'))]:
-                j = Obj('join', {'soClass': Obj('sc', {'__name__': a}), 'otherClass': Obj('oc', {'__name__': b})},
-                        {'hasIntermediateTable': lambda x, k, v=inter: v})
-                cls = Obj('cls', {'sqlmeta': Obj('sqlmeta', {'joins': [None, j]})})
-                pe = PE({'cls': cls}, {'getattr': lambda x, k, v=create: v})
+                for osc in (False, True):
+                    attrs = {'soClass': Obj('sc', {'__name__': a}), 'otherClass': Obj('oc', {'__name__': b})}
+                    if not create:
+                        attrs['createRelatedTable'] = False
+                    j = Obj('join', attrs, {'hasIntermediateTable': lambda x, k, v=inter: v})
+                    cls = Obj('cls', {'sqlmeta': Obj('sqlmeta', {'joins': [None, j]})},
+                              {'_otherSideCreates': lambda x, k, v=osc: v})
+                    pe = PE({'cls': cls}, {'getattr': _generic_getattr})
+                    v = pe.run(fn.body)
+                    if not isinstance(v, list):
+                        raise Unsupported('_getJoinsToCreate does not return a list')
+                    rows.append('((%s, %s, %s, %s), %s)' % (cbool(inter), cbool(create), rel, cbool(osc),
+                                                            cbool(len(v) == 1 and v[0] is j)))
+    out = ['Definition joins_rule_table : list ((bool * bool * comparison * bool) * bool) :=\n  [%s].' % ';\n   '.join(rows)]
+    # _otherSideCreates: does the other class hold a creating RelatedJoin with the same intermediate table?
+    fn = src.method(MAIN, 'SQLObject', '_otherSideCreates')
+    rows = []
+    for inter in (False, True):
+        for create in (False, True):
+            for same in (False, True):
+                attrs = {'intermediateTable': 'T1' if same else 'T2'}
+                if not create:
+                    attrs['createRelatedTable'] = False
+                o = Obj('other', attrs, {'hasIntermediateTable': lambda x, k, v=inter: v})
+                join = Obj('join', {'intermediateTable': 'T1',
+                                    'otherClass': Obj('oc', {'sqlmeta': Obj('sqlmeta', {'joins': [None, o]})})})
+                pe = PE({'join': join}, {'getattr': _generic_getattr})
                 v = pe.run(fn.body)
-                if not isinstance(v, list):
-                    raise Unsupported('_getJoinsToCreate does not return a list')
-                rows.append('((%s, %s, %s), %s)' % (cbool(inter), cbool(create), rel, cbool(len(v) == 1 and v[0] is j)))
-    return ('Definition joins_rule_table : list ((bool * bool * comparison) * bool) :=\n  [%s].' % ';\n   '.join(rows))
+                if not isinstance(v, bool):
+                    raise Unsupported('_otherSideCreates does not return a bool')
+                rows.append('((%s, %s, %s), %s)' % (cbool(inter), cbool(create), cbool(same), cbool(v)))
+    out.append('Definition other_side_table : list ((bool * bool * bool) * bool) :=\n  [%s].' % ';\n   '.join(rows))
+    # dropJoinTables must use the same ownership test
+    fn = src.method(MAIN, 'SQLObject', 'dropJoinTables')
+    txt = ast.unparse(fn)
+    if 'join.soClass.__name__ > join.otherClass.__name__ and cls._otherSideCreates(join)' not in txt:
+        raise Unsupported('dropJoinTables no longer uses the ownership test of _getJoinsToCreate')
+    return '\n'.join(out)
 
 
 def gen_const_types(src):
@@ -746,34 +781,46 @@ def gen_const_types(src):
 def gen_enum(src):
     """which converter renders the enum values, and the shape of the type, per _<dialect>Type"""
     rows = []
-    al = src.class_assigns(COL, 'SOEnumCol')
-    for meth in ('_mysqlType', '_postgresType', '_firebirdType', '_sybaseType', '_mssqlType'):
+
+    def run(meth, vals, extra_env=None):
         fn = src.method(COL, 'SOEnumCol', meth)
+        me = Obj('self', {'enumValues': vals, 'dbName': hole('dbName')},
+                 {'_checkType': lambda a, k: hole('check@%s' % a[0]) if (len(a) == 1 and isinstance(a[0], str)) else _unsup()})
+        calls = {'sqlbuilder.sqlrepr': lambda a, k: hole('%s@%s' % ('NULL' if a[0] is None else a[0], a[1]))}
+        env = {'self': me}
+        env.update(extra_env or {})
+        pe = PE(env, calls, {'max(map(self._getlength, self.enumValues))': hole('length')})
+        try:
+            v = pe.run(fn.body)
+            if isinstance(v, tuple):
+                parts = []
+                for i, x in enumerate(v):
+                    if i:
+                        parts.append(('c', ' ; '))
+                    parts.extend(Sym.of(x).parts)
+                v = Sym(parts)
+            return ('ok', lex_template(v))
+        except Raised as e:
+            return ('raise', e.name)
+    for meth in ('_mysqlType', '_postgresType', '_sqliteType', '_firebirdType', '_sybaseType', '_mssqlType'):
         for with_none in (False, True):
             vals = ['a', None] if with_none else ['a', 'b']
-            me = Obj('self', {'enumValues': vals, 'dbName': hole('dbName')},
-                     {'_postgresType': lambda a, k: hole('postgresType')})
-            calls = {'sqlbuilder.sqlrepr': lambda a, k: hole('%s@%s' % ('NULL' if a[0] is None else a[0], a[1]))}
-            pe = PE({'self': me}, calls, {'max(map(self._getlength, self.enumValues))': hole('length')})
-            try:
-                v = pe.run(fn.body)
-                if isinstance(v, tuple):
-                    parts = []
-                    for i, x in enumerate(v):
-                        if i:
-                            parts.append(('c', ' ; '))
-                        parts.extend(Sym.of(x).parts)
-                    v = Sym(parts)
-                r = ('ok', lex_template(v))
-            except Raised as e:
-                r = ('raise', e.name)
-            rows.append('((%s, %s), %s)' % (cstr(meth), cbool(with_none), cres(r)))
+            rows.append('((%s, %s), %s)' % (cstr(meth), cbool(with_none), cres(run(meth, vals))))
     out = ['Definition enum_type_table : list ((list N * bool) * tres) :=\n  [%s].' % ';\n   '.join(rows)]
-    out.append('Definition enum_sqlite_alias : list N := %s.' % cstr(al.get('_sqliteType', '?')))
+    rows = []
+    for db in ('postgres', 'sqlite', 'sybase', 'mssql'):
+        for with_none in (False, True):
+            vals = ['a', None] if with_none else ['a', 'b']
+            rows.append('((%s, %s), %s)' % (cstr(db), cbool(with_none), cres(run('_checkType', vals, {'db': db}))))
+    out.append('Definition enum_check_table : list ((list N * bool) * tres) :=\n  [%s].' % ';\n   '.join(rows))
     fn = src.method(COL, 'SOEnumCol', '_maxdbType')
     r = run_fn(fn, {'self': Obj('self')}, {})
     out.append('Definition enum_maxdb : tres := %s.' % cres(r))
     return '\n'.join(out)
+
+
+def _unsup():
+    raise Unsupported('_checkType called with something else than a constant dialect name')
 
 
 HEADER = '''(* GENERATED by tools/py2coq/gen_ddl.py from the SQLObject source -- do not edit.
